@@ -26,6 +26,8 @@ ANCHORS = {
     "Model/Heap.v": ["forsys.vertex:Vertex.add_edge", "forsys.vertex:Vertex.remove_edge", "forsys.vertex:Vertex.add_cell", "forsys.vertex:Vertex.remove_cell", "forsys.edge:SmallEdge.__post_init__", "forsys.edge:SmallEdge.__del__", "forsys.cell:Cell.__post_init__", "forsys.cell:Cell.__del__", "forsys.cell:Cell.replace_vertex", "forsys.edge:SmallEdge.replace_vertex"],
     "Model/Skeleton.v": ["forsys.skeleton:Skeleton.__post_init__", "forsys.skeleton:Skeleton.create_lattice"],
     "Model/AngleLimit.v": ["forsys.fmatrix:ForceMatrix.get_angle_limited_edges"],
+    "Model/SkeletonT3.v": ["forsys.skeleton:Skeleton.get_artifacts", "forsys.skeleton:Skeleton.do_t3_transition", "forsys.skeleton:Skeleton.get_new_vid",
+                           "forsys.edge:SmallEdge.replace_vertex", "forsys.cell:Cell.replace_vertex", "forsys.edge:SmallEdge.__del__"],
 }
 
 
